@@ -590,10 +590,17 @@ func (m *Muxer) canvasSize() (int, int) {
 		return 1, 1
 	}
 	maxW, maxH := 0, 0
+	animated := m.isAnimated()
 	for _, f := range m.frames {
 		fw, fh := frameDimensions(f.data)
 		endX := f.opts.OffsetX + fw
 		endY := f.opts.OffsetY + fh
+		if !animated {
+			// A still image has no position: its canvas is the image
+			// itself (an extended file whose canvas differs from its still
+			// image is invalid).
+			endX, endY = fw, fh
+		}
 		// Guard against integer overflow.
 		if fw > 0 && endX < f.opts.OffsetX {
 			endX = math.MaxInt
